@@ -596,6 +596,18 @@ func transferIG(name, table string, extraFields []string, mod func(*config.Integ
 	return ig
 }
 
+// txIG: a transaction-indexing integration (no event): one row per transaction, served from
+// eth_getBlockByNumber alone - no log or receipt request whose block hash would be cross-checked
+func txIG(name, table string, fields []string) config.Integration {
+	ig := config.Integration{Name: name, Enabled: true}
+	ig.Table.Name = table
+	for _, f := range fields {
+		ig.Block = append(ig.Block, dig.BlockData{Name: f, Column: f})
+		ig.Table.Columns = append(ig.Table.Columns, wpg.Column{Name: f, Type: fieldType(f)})
+	}
+	return ig
+}
+
 // approvalIG: like transferIG but on the Approval event (the second log of every transaction)
 func approvalIG(name, table string, extraFields []string, mod func(*config.Integration)) config.Integration {
 	ig := config.Integration{Name: name, Enabled: true}
